@@ -176,8 +176,9 @@ func (m *C03) AfterTx(e *eng.Engine, t *eng.TxRec) {
 			continue
 		}
 		got := new(big.Int).Sub(t.Post.BankOf(kk[0], kk[1]), t.Pre.BankOf(kk[0], kk[1]))
-		d := new(big.Rat).Sub(new(big.Rat).SetInt(got), want)
-		d.Abs(d)
+		// one-sided: at least what the fills owe (other messages of the same transaction may pay the
+		// seller more; the exact amount is C07's clause)
+		d := new(big.Rat).Sub(want, new(big.Rat).SetInt(got))
 		if d.Cmp(big.NewRat(int64(owedFills[kk]), 1)) > 0 {
 			e.Violate("C03", "seller-not-paid-in-ask-denom", fmt.Sprintf("%s: seller %s lost escrowed credits to a purchase and received %s %s, the fills owe it %s %s", where, kk[0], got, kk[1], rs(want), kk[1]))
 		}
